@@ -41,3 +41,10 @@ pub fn block_on<F: Future>(f: F) -> F::Output {
 pub fn block_on<F: Future>(f: F) -> F::Output {
     futures::executor::block_on(Observed { inner: Box::pin(f), agent: vsched::agent_id() })
 }
+
+/// Poll a future once; its waker only records that it fired (there is no task to resume).
+pub fn poll_once<F: Future + Unpin>(fut: &mut F) -> Poll<F::Output> {
+    let waker = futures::task::waker(Arc::new(TaskWaker { inner: futures::task::noop_waker(), agent: vsched::agent_id() }));
+    let mut cx = Context::from_waker(&waker);
+    Pin::new(fut).poll(&mut cx)
+}
